@@ -333,6 +333,9 @@ class C02(RunSpec):
         if idx % 10 == 6:
             # local searches that make no iteration at all (flat region), in both directions
             p.update({"fams": ["plateau", "constant", "plateau"], "leaf": _cycle(["local", "local_maxiter"], idx // 10), "levels": [2, 3], "maximize": bool((idx // 10) % 2)})
+        if idx % 10 == 5:
+            # crossover without any mutation (p_mutation = 0): children of the crossover are new points, whatever the mutation step does or skips
+            p.update({"root": _cycle(["sea_cx", "ga"], idx // 10), "leaf": _cycle(["ga", "sea_cx", "sea"], idx // 10), "levels": [1, 2, 2], "fams": ["rastrigin", "sphere", "funnel"], "crossover_only": True})
         if idx % 10 == 9:
             # one objective per level (the documentation's "less accurate model on the upper levels"): a child evaluates its copy of the
             # sprout seed with *its* level's objective
@@ -350,6 +353,10 @@ class C02(RunSpec):
 
     def make_case(self, seed, idx, tier):
         d = super().make_case(seed, idx, tier)
+        if idx % 10 == 5 and d.get("kind") == "tree":
+            for lv in d["levels"]:
+                if lv["engine"] in ("sea_cx", "ga"):
+                    lv.update({"p_mutation": 0.0, "p_crossover": 0.9})
         if idx % 10 == 9 and d.get("kind") == "tree" and not d.get("shared") and len(d["levels"]) >= 2:
             d["level_shift"] = [0.0, 0.125, -0.25][: len(d["levels"])]
         if idx % 10 == 3 and d.get("kind") == "tree":
@@ -394,6 +401,7 @@ class C02(RunSpec):
             ("C02.runs_on_an_objective_with_mixed_return_types", 3, "runs in which the objective returned values of more than one type"),
             ("C02.objective_returned_a_value_of_type.int", 50, "objective values returned as python int"),
             ("C02.objective_returned_a_value_of_type.float32", 50, "objective values returned as numpy float32"),
+            ("C02.crossover_without_mutation_levels", 5, "levels running SEAWithCrossover / GAStyleSEA with p_mutation = 0"),
             ("C02.individuals_reevaluated_with_their_own_level_s_objective", 200, "stored individuals of trees with one objective per level, re-evaluated with their own level's objective"),
             ("C02.cached_problem_pairs", 3, "pairs of cached problems with different objectives in one process"),
             ("C02.local_deme_with_3_iterates", 1, "local deme with >=3 recorded iterates"),
@@ -1141,6 +1149,9 @@ class C12(RunSpec):
         if idx % 10 == 4:
             p["fam"] = "tinyval"
             p["root"] = _cycle(SEA_FAMILY, idx // 10)
+        if idx % 10 == 5:
+            # MWEA with committees of 2-4 and population sizes that are not multiples of the committee size
+            p.update({"root": "mwea", "leaf": _cycle(["mwea", "sea", "de"], idx // 10), "levels": [1, 2], "fams": ["rastrigin", "sphere", "funnel"]})
         if idx % 10 == 9:
             # the sampling demes are population-based too: every generation has the configured size, whatever the size (Sobol' with a
             # size that is not a power of two, LHS with any)
@@ -1158,6 +1169,11 @@ class C12(RunSpec):
                 lv["gens"] = rng.randint(2, 4)
             if "pop" in lv and rng.random() < 0.5 and lv["engine"] not in ("mwea", "shade"):
                 lv["pop"] = rng.choice([4, 5, 7, 9])
+        if idx % 10 == 5 and d.get("kind") == "tree":
+            for lv in d["levels"]:
+                if lv["engine"] == "mwea":
+                    k_, pop_ = [(3, 7), (2, 9), (3, 10), (4, 13), (2, 5), (4, 9), (3, 13)][(idx // 10) % 7]
+                    lv.update({"k_elites": k_, "pop": pop_, "election_group_size": max(k_, min(pop_, 6))})
         if idx % 10 == 9 and d.get("kind") == "tree":
             for lv in d["levels"]:
                 if lv["engine"] in ("sobol", "lhs"):
@@ -1179,6 +1195,7 @@ class C12(RunSpec):
         fl = [("objective.tinyval", 5, "objective with values of the order 1e-12")]
         fl.append(("C12.generations_of_a_sobol_deme_whose_size_is_not_a_power_of_two", 5, "generations of a Sobol' deme with a size that is not a power of two"))
         fl.append(("C12.generations_of_an_lhs_deme", 5, "generations of an LHS deme"))
+        fl.append(("C12.generations_of_an_mwea_deme_whose_size_is_not_a_multiple_of_its_committee_size", 20, "generations of an MWEA deme whose population size is not a multiple of its committee size (k_elites >= 2)"))
         for dr in ("min", "max"):
             fl.append((f"C12.pairs_of_a_single_individual_population.{dr}", 5, "generation pairs of an elitist SEA population of one individual"))
             fl.append((f"C12.pairs_with_every_parent_an_elite.{dr}", 5, "generation pairs with k_elites >= population size"))
